@@ -12,6 +12,8 @@
  *   | F <hash> <chain>    forRules bucket        | B <hash> <chain>   backRules bucket
  *   | FP <pass> <chain>   forPassRules[pass]     | BP <pass> <chain>  backPassRules[pass]
  * Rules are identified by their `index` (sequence number within the table); -1 = null offset.
+ * In the byte-code of a multipass rule (the <dots> of its R record) the two words behind a swap / grouping
+ * instruction hold the index of the rule referred to (high word, low word) instead of its arena offset.
  * Every rule reachable from any chain / slot is listed once under R, sorted by index. */
 
 #include <stddef.h>
@@ -46,6 +48,71 @@ printChain(const TranslationTableHeader *t, TranslationTableOffset off, int viaD
 		off = viaDots ? r->dotsnext : r->charsnext;
 	}
 	if (off) printf(",LOOP");
+}
+
+static int
+isPassRule(const TranslationTableRule *r) {
+	return r->opcode == CTO_Context || r->opcode == CTO_Correct || r->opcode == CTO_Pass2 ||
+			r->opcode == CTO_Pass3 || r->opcode == CTO_Pass4;
+}
+
+/* walks the byte-code of a multipass rule.  The two words behind a swap / grouping instruction hold the arena
+ * offset of the rule they refer to; with `copy` != NULL they are replaced by that rule's INDEX (high word, low
+ * word), so that the dump stays offset-free; in any case the referenced rule is registered for the R records. */
+static void
+walkPassProgram(const TranslationTableHeader *t, const TranslationTableRule *r, widechar *copy) {
+	const widechar *ins = r->charsdots + r->charslen;
+	int n = r->dotslen, ic = 0, inAction = 0;
+	while (ic < n) {
+		int ref = 0, len = 1;
+		switch (ins[ic]) {
+		case pass_string:
+		case pass_dots:
+			len = 2 + (ic + 1 < n ? ins[ic + 1] : 0);
+			break;
+		case pass_lookback:
+			len = 2;
+			break;
+		case pass_attributes:
+			len = 7;
+			break;
+		case pass_swap:
+			ref = 1;
+			len = inAction ? 3 : 5;
+			break;
+		case pass_groupstart:
+		case pass_groupend:
+		case pass_groupreplace:
+			ref = 1;
+			len = 3;
+			break;
+		case pass_eq:
+		case pass_lt:
+		case pass_gt:
+		case pass_lteq:
+		case pass_gteq:
+			len = 3;
+			break;
+		case pass_hyphen:
+		case pass_plus:
+			len = inAction ? 2 : 1;
+			break;
+		case pass_endTest:
+			inAction = 1;
+			break;
+		default:
+			break;
+		}
+		if (ref && ic + 2 < n) {
+			TranslationTableOffset off = ((TranslationTableOffset)ins[ic + 1] << 16) | ins[ic + 2];
+			int idx = off ? ruleIdx(t, off) : 0;
+			if (copy) {
+				copy[ic + 1] = (widechar)((idx >> 16) & 0xffff);
+				copy[ic + 2] = (widechar)(idx & 0xffff);
+			}
+		}
+		ic += len;
+	}
 }
 
 static int
@@ -136,13 +203,23 @@ dumpTable(const TranslationTableHeader *t) {
 				t->hyphenStatesArray ? 1 : 0, t->ruleCounter);
 	}
 	fclose(mem);
+	/* rules that are only referred to from the byte-code of multipass rules (swap classes, groupings) */
+	for (i = 0; i < dumpNRules; i++)
+		if (isPassRule(dumpRules[i])) walkPassProgram(t, dumpRules[i], NULL);
 	qsort(dumpRules, dumpNRules, sizeof(*dumpRules), cmpRuleIdx);
 	for (i = 0; i < dumpNRules; i++) {
 		const TranslationTableRule *r = dumpRules[i];
 		printf(" | R %d %d ", r->index, (int)r->opcode);
 		printWide(r->charsdots, r->charslen);
 		printf(" ");
-		printWide(r->charsdots + r->charslen, r->dotslen);
+		if (isPassRule(r) && r->dotslen > 0) {
+			widechar *copy = malloc(sizeof(widechar) * r->dotslen);
+			memcpy(copy, r->charsdots + r->charslen, sizeof(widechar) * r->dotslen);
+			walkPassProgram(t, r, copy);
+			printWide(copy, r->dotslen);
+			free(copy);
+		} else
+			printWide(r->charsdots + r->charslen, r->dotslen);
 		printf(" %llx %llx %d %d", (unsigned long long)r->after, (unsigned long long)r->before,
 				(int)r->nocross, r->patterns ? 1 : 0);
 	}
